@@ -73,6 +73,9 @@ def r_rem(n, xhtml):
         # void element: no content, no end tag (self-closed in XHTML)
         return f"<{tag}{attrs}/>" if xhtml else f"<{tag}{attrs}>"
     inner = "".join(r_piece(p, xhtml, n["tag"]) for p in n["content"])
+    if xhtml and not inner and n.get("case", 0):
+        # XML allows the empty-element form for any element (<script src="reader.js"/>); "case" has no other meaning in XHTML and selects it
+        return f"<{tag}{attrs}/>"
     if xhtml and n["tag"] in RAWTEXT and inner:
         inner = "/*<![CDATA[*/" + inner.replace("]]>", "]] >") + "/*]]>*/" if ("<" in inner or "&" in inner) else inner
     return f"<{tag}{attrs}>{inner}</{tag}>"
